@@ -7,7 +7,7 @@ import warnings
 from hypothesis import strategies as st
 
 from .. import pdugen as g
-from ..common import Violation, hyp_search, parallel, lib_frame, digest
+from ..common import Violation, hyp_search, parallel, lib_frame, digest, quiet_warnings
 
 LEVEL = 'exploration'
 
@@ -178,7 +178,7 @@ def run_random(ctx, n, allow_big=True):
 
 
 def shard(ctx, job):
-    warnings.simplefilter('ignore')
+    quiet_warnings()
     run_adjacency(ctx, job['adj'])
     run_random(ctx, job['n'])
 
@@ -208,7 +208,7 @@ def run_long_lived(n):
 
 
 def run(ctx):
-    warnings.simplefilter('ignore')
+    quiet_warnings()
     n_long = 12000 if ctx.thorough else 2500
     ctx.case(('long-lived', n_long), True, labels=['long-lived-process'], sample={'pdus': n_long, 'fresh names': 6 * n_long})
     ctx.check(run_long_lived, n_long)
@@ -231,7 +231,7 @@ def run(ctx):
 
 
 def replay(case):
-    warnings.simplefilter('ignore')
+    quiet_warnings()
     if case.get('kind') == 'long-lived':
         run_long_lived(case['n'])
         return
